@@ -10,6 +10,7 @@ import (
 )
 
 func msgpackMarshal(v any) ([]byte, error) { return msgpack.Marshal(v) }
+func msgpackUnmarshal(b []byte, v any) error { return msgpack.Unmarshal(b, v) }
 
 func f32p(f float32) *float32 { return &f }
 
